@@ -30,6 +30,13 @@ pub fn render(v: &Value) -> Value {
     "u5" => json!({"U1": {"any": [{"kind": "call_expression"}, {"has": {"matches": "U1", "stopBy": "end"}}]}}),
     "u6" => json!({"U1": {"nthChild": {"position": 1, "ofRule": {"matches": "U1"}}}}),
     "u7" => json!({"U1": {"any": [{"kind": "call_expression"}, {"matches": "U9"}]}}),
+    // rule objects with several keys at one level
+    "u9" => json!({"U1": {"matches": "U3", "not": {"matches": "U2"}}, "U2": {"matches": "U1"}, "U3": {"kind": "call_expression"}}),
+    "u10" => json!({"U1": {"kind": "call_expression", "all": [{"matches": "U2"}], "any": [{"matches": "U3"}, {"kind": "call_expression"}]},
+                    "U2": {"kind": "call_expression"}, "U3": {"any": [{"matches": "U1"}, {"kind": "call_expression"}]}}),
+    "u11" => json!({"U1": {"matches": "U2", "any": [{"kind": "call_expression"}, {"matches": "U9"}]}, "U2": {"kind": "call_expression"}}),
+    "u12" => json!({"U1": {"regex": "foo", "all": [{"matches": "U2"}], "any": [{"matches": "U3"}, {"kind": "number"}]},
+                    "U2": {"kind": "call_expression"}, "U3": {"matches": "U2", "regex": "abc"}}),
     _ => json!({"U1": {"pattern": "foo($B)"}}),
   };
   let cons = match s("c") {
@@ -127,10 +134,11 @@ pub fn drive(vectors: &str, out: &str) {
   let recs = cli::par_map(&all, 12, |i, v| {
     let doc = render(v);
     let yaml = serde_json::to_string(&doc).unwrap();
-    let risky = yaml.contains("ofRule");
+    // documents whose utilities refer to each other in a cycle: if such a document is (wrongly) accepted, loading or
+    // matching may not terminate or may overflow the stack - a crash of the code under test must stay an observation
+    let risky = yaml.contains("ofRule") || matches!(v["u"].as_str().unwrap_or(""), "u3" | "u4" | "u5" | "u6" | "u9" | "u10");
     let res = if risky {
-      // utility recursion through nthChild.ofRule: loading or matching may overflow the stack - isolate the
-      // whole load + apply in a child process
+      // isolate the whole load + apply in a child process
       let f = format!("{scratch}/d{i}.yml");
       std::fs::write(&f, &yaml).unwrap();
       let o = std::process::Command::new("timeout").args(["20", &me, "c12-apply", &f]).output().unwrap();
